@@ -1,6 +1,6 @@
 # reg and TB_COMMON are injected by lib/props.py
 reg(id="C18",
-    gen=[],
+    gen=["globals"],
     model_targets=["C18/Corr.vo"],
     proof_targets=["Props/C18.vo"],
     props_file="Props/C18.v",
